@@ -79,7 +79,7 @@ def parse_parser(node) -> tuple[str, str]:
     return parse_format(b.args[1].value), post
 
 
-def generate(repo: Path) -> str:
+def _generate_ast(repo: Path):
     tree = ast.parse((repo / "async_upnp_client" / "utils.py").read_text())
     table = utc = compiled = fn = None
     for node in tree.body:
@@ -106,6 +106,7 @@ def generate(repo: Path) -> str:
     if not isinstance(table, ast.Dict):
         raise Refuse("_UNCOMPILED_MATCHERS is not a dict literal")
     rows = []
+    spec_rows = []
     seen = set()
     for k, v in zip(table.keys, table.values):
         if not (isinstance(k, ast.Constant) and isinstance(k.value, str)):
@@ -115,6 +116,7 @@ def generate(repo: Path) -> str:
         seen.add(k.value)
         fmt, post = parse_parser(v)
         rows.append(f"  mkMatcher {parse_regex(k.value)} {fmt} {post}")
+        spec_rows.append([k.value, v_format(v), post])
     # parse_date_time body
     if fn is None or [a.arg for a in fn.args.args] != ["value"]:
         raise Refuse("parse_date_time signature")
@@ -143,7 +145,8 @@ def generate(repo: Path) -> str:
         raise Refuse("matcher loop shape: " + ast.unparse(loop))
     if not (isinstance(rais, ast.Raise) and isinstance(rais.exc, ast.Call) and ast.unparse(rais.exc.func) == "ValueError"):
         raise Refuse("final raise shape")
-    return (
+    spec = {"rows": spec_rows, "sign_pos": a1, "signs": sign_list, "colon_pos": b1, "colon": colon}
+    return spec, (
         "(* GENERATED by tools/gen/datematchers.py from async_upnp_client/utils.py — do not edit. *)\n"
         "From Coq Require Import List NArith.\nFrom AUC Require Import C08.TypesDef.\nImport ListNotations.\n\n"
         f"Definition fixup_sign_pos : nat := {a1}.\n"
@@ -152,3 +155,125 @@ def generate(repo: Path) -> str:
         f"Definition fixup_colon : N := {ord(colon)}%N.\n\n"
         "Definition matchers : list matcher := [\n" + ";\n".join(rows) + "\n].\n"
     )
+
+
+def v_format(node) -> str:
+    """the strptime format string of a parser lambda (already validated by parse_parser)"""
+    for sub in ast.walk(node):
+        if isinstance(sub, ast.Call) and ast.unparse(sub.func) == "datetime.strptime":
+            return sub.args[1].value
+    raise Refuse("no strptime call")
+
+
+BASELINE = Path(__file__).resolve().parent / "baseline" / "DateMatchers.json"
+
+
+def _emit(spec) -> str:
+    rows = []
+    for rx, fmt, post in spec["rows"]:
+        rows.append(f"  mkMatcher {parse_regex(rx)} {parse_format(fmt)} {post}")
+    return (
+        "(* GENERATED by tools/gen/datematchers.py from async_upnp_client/utils.py — do not edit. *)\n"
+        "From Coq Require Import List NArith.\nFrom AUC Require Import C08.TypesDef.\nImport ListNotations.\n\n"
+        f"Definition fixup_sign_pos : nat := {spec['sign_pos']}.\n"
+        f"Definition fixup_signs : list N := [{';'.join(str(ord(x)) for x in spec['signs'])}]%N.\n"
+        f"Definition fixup_colon_pos : nat := {spec['colon_pos']}.\n"
+        f"Definition fixup_colon : N := {ord(spec['colon'])}%N.\n\n"
+        "Definition matchers : list matcher := [\n" + ";\n".join(rows) + "\n].\n"
+    )
+
+
+def _reference(spec):
+    """parse_date_time as the table describes it"""
+    import datetime as dt
+    utc = dt.timezone(dt.timedelta(hours=0))
+    rows = [(re.compile(rx), fmt, post) for rx, fmt, post in spec["rows"]]
+    a1, b1 = spec["sign_pos"], spec["colon_pos"]
+
+    def ref(value):
+        if value[-a1:-(a1 - 1)] in spec["signs"] and value[-b1:-(b1 - 1)] == spec["colon"]:
+            value = value[:-b1] + value[-(b1 - 1):]
+        for rx, fmt, post in rows:
+            if rx.match(value):
+                d = dt.datetime.strptime(value, fmt)
+                return {"PostNone": lambda x: x, "PostDate": lambda x: x.date(), "PostTime": lambda x: x.time(),
+                        "PostTimetz": lambda x: x.timetz(), "PostReplaceUTC": lambda x: x.replace(tzinfo=utc)}[post](d)
+        raise ValueError("Unknown date/time: " + value)
+    return ref
+
+
+def _probe_inputs():
+    import random
+    rng = random.Random(20260930)
+    dates = ["2020-01-02", "0001-01-01", "9999-12-31", "2024-02-29", "2023-02-29", "2020-13-01", "20200102", "999-01-01"]
+    times = ["03:04:05", "00:00:00", "23:59:59", "24:00:00", "3:04:05", "03:04", "030405"]
+    zones = ["", "Z", "z", "+01:00", "-05:30", "+0100", "-0530", " +01:00", " +0100", "+00:00", "+2359", "+24:00", "+1:00", "UTC", "+01", ":"]
+    out = ["", " ", "0", "now", "12:00", "today", "abc", "2020", "T", "Z", "\n"]
+    for d in dates:
+        out.append(d)
+        for z in zones[:6]:
+            out.append(d + z)
+        for t in times:
+            for sep in ("T", " ", "t", ""):
+                for z in zones:
+                    out.append(d + sep + t + z)
+    for t in times:
+        for z in zones:
+            out.append(t + z)
+    base = list(out)
+    for _ in range(1500):
+        x = rng.choice(base)
+        k = rng.randrange(4)
+        i = rng.randrange(len(x) + 1)
+        if k == 0 and x:
+            x = x[:i % len(x)] + x[i % len(x) + 1:]
+        elif k == 1:
+            x = x[:i] + rng.choice("0123456789-:+TZ .,\n١") + x[i:]
+        elif k == 2:
+            x = x + rng.choice(["\n", " ", "0", "Z"])
+        else:
+            x = x[:i]
+        out.append(x)
+    return out
+
+
+def generate(repo: Path) -> str:
+    import json
+    try:
+        spec, text = _generate_ast(repo)
+    except Refuse as e:
+        # The source no longer has the shape the table reader knows.  The table of the pinned tree (tools/gen/baseline)
+        # is kept if - and only if - the tree's parse_date_time still behaves exactly as that table says, on a grid of
+        # well-formed and damaged date/time texts; a difference is refused with the text that shows it.
+        if not BASELINE.exists():
+            raise
+        spec = json.loads(BASELINE.read_text())
+        import importlib
+        import sys
+        sys.path.insert(0, str(repo))
+        try:
+            for k in [k for k in sys.modules if k == "async_upnp_client" or k.startswith("async_upnp_client.")]:
+                del sys.modules[k]
+            utils = importlib.import_module("async_upnp_client.utils")
+        finally:
+            sys.path.pop(0)
+        ref = _reference(spec)
+        for x in _probe_inputs():
+            try:
+                want = ("ok", ref(x))
+            except ValueError:
+                want = ("ValueError",)
+            try:
+                got = ("ok", utils.parse_date_time(x))
+            except ValueError:
+                got = ("ValueError",)
+            except Exception as ex:  # noqa: BLE001
+                got = (type(ex).__name__,)
+            same = got == want and (got[0] != "ok" or (type(got[1]) is type(want[1])
+                                                        and getattr(got[1], "tzinfo", None) == getattr(want[1], "tzinfo", None)))
+            if not same:
+                raise Refuse(f"{e}; and parse_date_time({x!r}) gives {got!r} where the pinned table gives {want!r}", counterexample=True) from e
+        print(f"translator:DateMatchers: note: source shape not recognised ({e}); the pinned table is kept: parse_date_time "
+              "agrees with it on the probe grid")
+        return _emit(spec)
+    return text
